@@ -91,3 +91,28 @@ Lemma ex7_rerender_refuted :
     read_tree (rerender ex_mime_of ex10_rb2 st) = Some t2 /\
     map (option_map lc_content) (tree_content t2) = [Some (bs "a=3D3Db")].
 Proof. eexists. eexists. split; [vm_compute; reflexivity|]. split; vm_compute; reflexivity. Qed.
+
+(* ---------- display names that net/mail quotes: comma, semicolon, colon, brackets, dots, at-sign ---------- *)
+Definition exq_to : list bytes := [bs """Doe, John"" <j@x.test>"; bs """Team: ops; <x> (y) J. R. @"" <t@x.test>"].
+Definition exq_cc : list bytes := [bs """Smith, A."" <a@x.test>"].
+Definition exq : Writer.msg :=
+  mkmsg charset_utf8 113%N [(hdr_subject, [bs "names"])] [] (Some (bs """Roe, Jane"" <jane@x.test>"))
+        [(hdr_to, exq_to); (hdr_cc, exq_cc)]
+        [mkpart type_text_plain [] EncQP [] (mkprod [bs "body"] false)] [] [] [] [] [].
+Definition exq_pl (v : bytes) : ares :=
+  if bytes_eqb v (join (bs ", ") exq_to) then AOk exq_to else if bytes_eqb v (join (bs ", ") exq_cc) then AOk exq_cc else AErr.
+
+(* such address lists are inside the feature set (the quoted phrase is a sequence of printable words) … *)
+Lemma exq_in_feature_set : in_feature_set exq = true /\ oracles_ok ex_pa exq_pl ex_pd ex10_date exq.
+Proof.
+  split; [vm_compute; reflexivity|]. repeat split; try (vm_compute; reflexivity).
+  intros k l [E|[E|[]]]; inversion E; subst; vm_compute; reflexivity.
+Qed.
+
+(* … and the parsed To / Cc are the LISTS net/mail parsed (a re-split of the raw value at the commas
+   would cut inside "Doe, John") *)
+Lemma exq_direct :
+  exists st, eml_parse ex_pa exq_pl ex_pd (r_out (write_to ex10_date ex10_msgid ex10_rb exq unlimited)) = Ok st /\
+             pj_to (project_parsed st) = exq_to /\ pj_cc (project_parsed st) = exq_cc /\
+             project_parsed st = project_built ex10_date exq.
+Proof. eexists. split; [vm_compute; reflexivity|]. repeat split; vm_compute; reflexivity. Qed.
